@@ -1,5 +1,5 @@
 """Which contracts decide which property."""
-from . import indexing, bases, align, axes, metadata, reshape, dataset, missing, transform, join
+from . import indexing, bases, align, axes, metadata, reshape, dataset, missing, transform, join, wellformed
 
 GLOBAL_ASSUMPTIONS = [
     "NumPy implements the contracts in dverif/symnp.py (validated by sampling against the installed NumPy, never proved)",
@@ -34,6 +34,12 @@ PROPERTIES = {
         "level": "other",
         "min_obligations": 1500,
         "explanation": "proved: stack / concatenate without align (labels, by-name placement of every cell, refusal of differing labels, no metadata, inputs untouched); bounded stand-in: align=True (composition with align, which is proved under C06).",
+    },
+    "C05": {
+        "contracts": [wellformed.Construct, wellformed.Helpers, wellformed.AxesSetter, wellformed.AxisCache, wellformed.NestedDict] +
+                     [(c, r"outer-nosort") if c.__name__ == "AlignWF" else c for c in wellformed.WF_CONTRACTS],
+        "level": "proof",
+        "min_obligations": 1000,
     },
     "C08": {
         "contracts": [transform.Reduce, transform.ReduceNativeOnly],
